@@ -25,6 +25,7 @@ fn main() {
         let src = v["src"].as_str().unwrap_or("");
         let mut cfg = RunCfg::new(v["times"].as_u64().unwrap_or(8));
         cfg.scheduler = v["scheduler"].as_bool().unwrap_or(false);
+        cfg.path = v["path"].as_str().map(std::path::PathBuf::from);
         if let Some(a) = v["inputs"].as_array() {
             cfg.inputs = a
                 .iter()
